@@ -116,6 +116,10 @@ C_MailReject == IsEv("MailReject") /\ MailReject(Ev.m, Ev.d)
 \* a MAIL inside an open transaction: refused, no effect (whatever sender it names)
 C_NestedMail == /\ IsEv("NestedMail") /\ Endp /\ Settled /\ pc[Ev.m] = "idle" /\ held[Ev.m].msg
                 /\ Ev.res = "503" /\ UNCHANGED vars
+C_RcptReject == IsEv("RcptReject") /\ RcptReject(Ev.m, Ev.d)
+\* a further recipient on a connection the delivery already has: no limit operation
+C_MoreRcpt == /\ IsEv("MoreRcpt") /\ Remote /\ Settled /\ pc[Ev.m] = "idle" /\ Ev.d \in held[Ev.m].dst
+              /\ Ev.res # "panic" /\ UNCHANGED vars
 C_Fill == /\ IsEv("Fill") /\ Ev.panics = 0 /\ Ev.errs = 0 /\ Ev.len = cfg.mb + 1
           /\ Fill(Ev.s)
 
@@ -133,7 +137,7 @@ C_Quiesced ==
 C_Step ==
   /\ ~mon
   /\ \/ C_Silent
-     \/ /\ (C_Call \/ C_Ret \/ C_Tick \/ C_Minute \/ C_Fill \/ C_MailReject \/ C_NestedMail \/ C_Snap \/ C_Quiesced)
+     \/ /\ (C_Call \/ C_Ret \/ C_Tick \/ C_Minute \/ C_Fill \/ C_MailReject \/ C_RcptReject \/ C_MoreRcpt \/ C_NestedMail \/ C_Snap \/ C_Quiesced)
         /\ l' = l + 1 /\ UNCHANGED <<mon, tno>>
         /\ HighWater
 
@@ -145,6 +149,8 @@ ObsApply(o, e) ==
     [] e.e = "Quiesced" -> ObsSnapX(ObsQuiesced(o, e.use, Range(e.nosem)), e.usex, Range(e.nosem))
     [] e.e = "Fill" -> V(o, e.panics = 0, "Crash")
     [] e.e = "MailReject" -> ObsMailReject(o, e.m, e.d)
+    [] e.e = "RcptReject" -> ObsRcptReject(o, e.m, e.d)
+    [] e.e = "MoreRcpt" -> V(o, e.res # "panic", "Crash")
     [] e.e = "NestedMail" -> V(o, e.res # "panic", "Crash")
     [] e.e = "Yield" -> ObsYield(o, e.m)
     [] e.e = "Resume" -> ObsResume(o, e.m)
